@@ -16,17 +16,18 @@ theorem runOps_eq_specRun (lower : Str → Str) (d : PyDict) (ops : List Op) :
   | nil => rfl
   | cons op ops ih => simp only [runOps, specRun, step_eq_specStep, ih]
 
-theorem construct_eq (lower : Str → Str) (r : Route) :
-    construct lower r = (specItems r).foldl (fun d kv => dset d (lower kv.1) kv.2) [] := by
+theorem construct_eq (lower : Str → Str) (r : Route) : construct lower r = specInit lower r := by
   cases r with
   | mapping items =>
-    simp only [construct, specItems]
+    simp only [construct, specInit, specItems]
     split <;> rfl
   | pairs items => rfl
   | strings ls => rfl
   | empty => rfl
+  | text t => rfl
+  | file t => rfl
 
-/-- **refinement**: however the paragraph was built (mapping, pairs, "Name: value" strings, nothing)
+/-- **refinement**: however the paragraph was built (mapping, pairs, "Name: value" strings, nothing, a text, a file object)
 and for every finite history of set / get / delete / membership / length / iteration / to_dict with
 arbitrarily-cased keys, and for *every* lower-casing function, the paragraph answers exactly as a
 plain insertion-ordered dictionary driven by the same history with lower-cased keys -/
